@@ -107,7 +107,7 @@ func strArgs(args []interface{}) ([]string, error) {
 	for i, a := range args {
 		s, ok := a.(string)
 		if !ok {
-			return nil, fmt.Errorf("argument %d is %T, not a string", i, a)
+			return nil, ref.ArgTypeError{Msg: fmt.Sprintf("argument %d is %T, not a string", i, a)}
 		}
 		out[i] = s
 	}
@@ -121,8 +121,11 @@ var c02RefFuncs = map[string]ref.RefFunc{
 	}},
 	"upper": {Params: []interface{}{""}, Call: func(_ *idr.Node, a []interface{}) (interface{}, error) {
 		s, err := strArgs(a)
-		if err != nil || len(s) != 1 {
-			return nil, fmt.Errorf("upper wants one string")
+		if err != nil {
+			return nil, err
+		}
+		if len(s) != 1 {
+			return nil, ref.ArgTypeError{Msg: "upper wants one string"}
 		}
 		return strings.ToUpper(s[0]), nil
 	}},
@@ -147,7 +150,7 @@ var c02RefFuncs = map[string]ref.RefFunc{
 		}
 		s, ok := a[0].(string)
 		if !ok {
-			return nil, fmt.Errorf("num: argument is %T", a[0])
+			return nil, ref.ArgTypeError{Msg: fmt.Sprintf("num: argument is %T", a[0])}
 		}
 		return c02NumImpl(s)
 	}},
@@ -155,10 +158,13 @@ var c02RefFuncs = map[string]ref.RefFunc{
 		if len(a) < 4 {
 			return nil, fmt.Errorf("testfn wants at least 4 arguments")
 		}
-		s, _ := a[0].(string)
-		i, _ := a[1].(int64)
-		f, _ := a[2].(float64)
-		b, _ := a[3].(bool)
+		s, ok0 := a[0].(string)
+		i, ok1 := a[1].(int64)
+		f, ok2 := a[2].(float64)
+		b, ok3 := a[3].(bool)
+		if !ok0 || !ok1 || !ok2 || !ok3 {
+			return nil, ref.ArgTypeError{Msg: fmt.Sprintf("testfn(string, int64, float64, bool, ...string) called with %T, %T, %T, %T", a[0], a[1], a[2], a[3])}
+		}
 		rest, err := strArgs(a[4:])
 		if err != nil {
 			return nil, err
@@ -556,6 +562,42 @@ func c02Enumerate(quick bool, visit func(label string, decls gd) bool) {
 		if !visit("A:typed-arg", fo(gd{"object": gd{"k": gd{"custom_func": gd{"name": "testfn", "args": a2}}}})) {
 			return
 		}
+		// an argument of a type the parameter does not take: the call cannot be made, the record fails
+		// (never a converted value), with and without ignore_error
+		if l.d["no_trim"] == nil {
+			for _, ig := range []bool{false, true} {
+				for _, fname := range []string{"concat", "upper", "coalesce"} {
+					if l.stringy {
+						break
+					}
+					cf := gd{"name": fname, "args": []interface{}{l.d}}
+					if ig {
+						cf["ignore_error"] = true
+					}
+					if !visit("A:mistyped-arg", fo(gd{"object": gd{"k": gd{"custom_func": cf}, "other": gd{"xpath": "c"}}})) {
+						return
+					}
+				}
+				for p := 0; p < 5; p++ {
+					if p == pos || (p == 4 && l.stringy) {
+						continue
+					}
+					a4 := append([]interface{}{}, args...)
+					if p < 4 {
+						a4[p] = l.d
+					} else {
+						a4 = append(a4, l.d)
+					}
+					cf := gd{"name": "testfn", "args": a4}
+					if ig {
+						cf["ignore_error"] = true
+					}
+					if !visit("A:mistyped-arg", fo(gd{"object": gd{"k": gd{"custom_func": cf}}})) {
+						return
+					}
+				}
+			}
+		}
 		if l.stringy {
 			a3 := append(append([]interface{}{}, args...), l.d, gd{"xpath": "b"})
 			if !visit("A:variadic-arg", fo(gd{"object": gd{"k": gd{"custom_func": gd{"name": "testfn", "args": a3}}}})) {
@@ -813,6 +855,21 @@ func c02Enumerate(quick bool, visit func(label string, decls gd) bool) {
 			if !visit("G:number-result-cast", fo(gd{"object": gd{"k": d}})) ||
 				!visit("G:number-result-cast", fo(gd{"object": gd{"k": cp(d, "keep_empty_or_null", true), "n": gd{"custom_func": gd{"name": "concat", "args": []interface{}{cp(d, "type", "string")}}}}})) {
 				return
+			}
+		}
+	}
+	// Level G (5): TEXT results cast with every type: notations that are not the decimal notation of an
+	// integer, integers that no float64 holds, the int64 edges, float and boolean spellings
+	for _, text := range []string{"2.0", "3e2", "0x1p4", "0x10", "1_000", "+5", "-0", "007", "5.", ".5", "9007199254740993", "-9007199254740995",
+		"1234567890123456789", "9223372036854775807", "9223372036854775808", "-9223372036854775808", "-9223372036854775809", "1e400", "Inf", "-inf", "nan", "NaN",
+		"TRUE", "True", "t", "T", "tRUE", "yes", "0", "1", "2", "F", "false ", "1.7976931348623157e308", "4.9e-324", "1e-400", "0.1", "١٢"} {
+		for _, src := range []gd{{"const": text}, {"custom_func": gd{"name": "num", "args": []interface{}{gd{"const": text}}}}} {
+			for _, t := range []string{"int", "float", "boolean", "string"} {
+				d := cp(src, "type", t)
+				if !visit("G:text-result-cast", fo(gd{"object": gd{"k": d, "other": gd{"xpath": "c"}}})) ||
+					!visit("G:text-result-cast", fo(gd{"array": []interface{}{d, gd{"custom_func": gd{"name": "concat", "args": []interface{}{cp(d, "type", "string")}}}}})) {
+					return
+				}
 			}
 		}
 	}
